@@ -306,7 +306,7 @@ ACTIONS = ['nop', 'register-better', 'register-other-name', 'unregister-winner',
            'unsubscribe', 'register-in-base', 'rebase-registry', 'rebase-interface', 'changed',
            'lookup.changed', 'reenter-same', 'reenter-other', 'gc', 'raise',
            'register-then-raise', 'changed-then-gc']
-SITES = ['required-iter', 'providedBy', 'conform', 'factory', 'generation',
+SITES = ['required-iter', 'providedBy', 'conform', 'factory', 'generation', 'value-destructor',
          'uncached_lookup:before', 'uncached_lookup:after',
          'uncached_lookupAll:before', 'uncached_lookupAll:after',
          'uncached_subscriptions:before', 'uncached_subscriptions:after']
@@ -318,9 +318,73 @@ def norm(x):
     return repr(x)
 
 
+DESTRUCTOR_ENTRIES = {
+    'lookup': lambda w: w.reg.lookup([w.I1], w.P, 'd'),
+    'lookup1': lambda w: w.reg.lookup1(w.I1, w.P, 'd'),
+    'lookupAll': lambda w: sorted(w.reg.lookupAll([w.I1], w.P), key=repr),
+    'queryAdapter': lambda w: w.reg.queryAdapter(w.ob, w.P, 'd'),
+    'adapter_hook': lambda w: w.reg.adapter_hook(w.P, w.ob, 'd'),
+    'queryMultiAdapter': lambda w: w.reg.queryMultiAdapter((w.ob,), w.P, 'd'),
+}
+
+
+def scenario_destructor(case, light=False):
+    """A registered value whose last reference is held by a lookup cache: it is
+    replaced, changed() drops the caches, and the value's destructor runs in
+    the middle of that and performs the action (a re-entrant lookup, a
+    mutation, changed(), a collection ...)."""
+    flavour, entry, site, action, warm = case
+    if entry not in DESTRUCTOR_ENTRIES or action == 'raise' or action == 'register-then-raise':
+        return None, False
+    w = World(flavour, site, action, audit=not light)
+    w.armed = False
+
+    class DV:
+        def __call__(s, *obs):
+            return ('DV',)
+
+        def __del__(s):
+            try:
+                w.fire('value-destructor')
+            except BaseException as e:
+                w.log.append(('destructor-raised', type(e).__name__, repr(e)[:120]))
+    w.reg.register([w.I0], w.P, 'd', DV())          # the registry owns the only reference
+    DESTRUCTOR_ENTRIES[entry](w)                   # ... and now a cache holds one too
+    if warm:
+        for e in ENTRIES:
+            w.call(e, False)
+    w.armed = True
+    try:
+        w.reg.register([w.I0], w.P, 'd', w.fNEW)   # replaced: the cache has the last reference
+    except Exception as e:
+        return ('mutator-raised:' + type(e).__name__, repr(e)[:200]), bool(w.fired)
+    if not w.fired:
+        return None, False
+    w.armed = False
+    if light:
+        return None, True
+    bad = [x for x in w.log if x[0] == 'destructor-raised']
+    if bad:
+        return ('exception-inside-destructor', bad[0]), True
+    t = World(flavour, audit=False)
+    t.reg.register([t.I0], t.P, 'd', t.fNEW)
+    t.apply_mutation_only(action)
+    for name, fn in DESTRUCTOR_ENTRIES.items():
+        a, b = norm(fn(w)), norm(fn(t))
+        if a != b:
+            return ('stale-answer-survives:' + name, a, b), True
+    for e in ENTRIES:
+        a, b = norm(w.call(e)), norm(t.call(e))
+        if a != b:
+            return ('stale-answer-survives:' + e, a, b), True
+    return None, True
+
+
 def scenario(case, light=False):
     """Returns (violation or None, fired?)."""
     flavour, entry, site, action, warm = case
+    if site == 'value-destructor':
+        return scenario_destructor(case, light)
     lazy = site == 'required-iter'
     if lazy and entry not in LAZY_OK:
         return None, False
@@ -836,10 +900,11 @@ def run(ctx):
     # an independent oracle for "memory is never corrupted"
     MUT_ACTIONS = ('register-better', 'unregister-winner', 'subscribe', 'unsubscribe',
                    'register-in-base', 'rebase-registry', 'rebase-interface', 'changed',
-                   'lookup.changed', 'register-then-raise', 'changed-then-gc', 'reenter-other')
+                   'lookup.changed', 'register-then-raise', 'changed-then-gc', 'reenter-other',
+                   'reenter-same', 'gc')
     if quick:
         mc = [c for c in cases if c[3] in MUT_ACTIONS and
-              (c[2].startswith('uncached') or c[2] in ('generation', 'required-iter'))]
+              (c[2].startswith('uncached') or c[2] in ('generation', 'required-iter', 'value-destructor'))]
     else:
         mc = list(cases)
     # keep only scenarios that can reach their site (cheap pre-filter by pairing)
@@ -855,6 +920,8 @@ def run(ctx):
             return c[0] == 'verifying'
         if site == 'required-iter':
             return e in LAZY_OK
+        if site == 'value-destructor':
+            return e in DESTRUCTOR_ENTRIES
         return True
     mc = [c for c in mc if pairs(c)]
     shards = [mc[i::NPROC] for i in range(NPROC)]
